@@ -205,6 +205,53 @@ def r2(k: Kit) -> None:
                                   'registry entry is not a listener object',
                                   f.loc(x))
     rep.floor('C20.R2', 'listener registrations', n, 8)
+    # a listener that comes into being after the connection's cleanup ran
+    # is never closed by it
+    m = 0
+    for f in idx.iter_funcs(['listener']):
+        if not f.is_async:
+            continue
+        g = k.cfg(f)
+        rets = [nd for nd in g.nodes if isinstance(nd.ast, ast.Return) and
+                nd.ast.value is not None and
+                is_call(nd.ast.value, 'SSHForwardListener')]
+        if not rets:
+            continue
+        awaits = [nd for nd in g.nodes if nd.ast is not None and any(
+            isinstance(x, ast.Await) for r_ in g.node_roots(nd)
+            for x in walk_shallow(r_))]
+
+        def alive(x: Node) -> Optional[bool]:
+            if x.kind == 'atom' and is_call(x.ast, 'is_closed', 'conn'):
+                return False
+            return None
+        for r_ in rets:
+            m += 1
+            bad = None
+            for a in awaits:
+                if a.id == r_.id:
+                    continue
+                for b, lab in g.succ[a.id]:
+                    if lab == 'exc':
+                        continue
+                    w = [b] if b == r_.id else g.guarded_by(r_.id, alive,
+                                                            start=b)
+                    if w is not None:
+                        bad = bad or (a, w)
+            rep.check(bad is None, 'C20.R2',
+                      key(f, 'no listener for a closed connection'),
+                      'after the last await the connection is tested with '
+                      'conn.is_closed() before the listener object is '
+                      'returned',
+                      f'{f.qual} awaits (name resolution, bind, an '
+                      'application callback upstream) and then returns a '
+                      'listener without asking whether the connection still '
+                      'exists: if it was lost meanwhile, _cleanup() has '
+                      'already run, the new listener is registered on the '
+                      'dead connection and its port stays bound for good',
+                      k.loc(f, bad[0]) if bad else f.loc(f.node),
+                      g.describe_path(bad[1]) if bad else None)
+    rep.floor('C20.R2', 'forward listener constructors', m, 2)
 
 
 def r3(k: Kit) -> None:
@@ -215,7 +262,9 @@ def r3(k: Kit) -> None:
              'peer; eof_received always records the EOF (so an EOF before '
              'the channel is open can be replayed), forwards it to the peer '
              'if there is one and keeps the transport open iff the peer has '
-             'not seen EOF; data goes to the peer or is buffered')
+             'not seen EOF - once both have, it closes the pair itself '
+             '(a channel whose own EOF is already out ignores the False '
+             'return); data goes to the peer or is buffered')
     ef = k.func(FW + 'eof_received')
     bad = None
     for peer in (None, 'PEER'):
@@ -239,6 +288,18 @@ def r3(k: Kit) -> None:
             if not good:
                 bad = bad or f'peer={peer} peer_eof={peer_eof}: recorded=' \
                     f'{rec} forwarded={len(fwd)} outcome {o}'
+            closed = bool(o.called('self.close'))
+            if closed != bool(peer and peer_eof):
+                bad = bad or (
+                    f'peer={peer} peer_eof={peer_eof}: relay '
+                    f'{"closed" if closed else "not closed"}' +
+                    (': EOF has now passed in both directions but nothing '
+                     'closes the pair - when this side is the channel (its '
+                     'EOF already sent) the False return does nothing, so '
+                     'with crossing EOFs both hosts keep the channel and '
+                     'the sockets open for the life of the SSH connection'
+                     if not closed else ': closed while one direction is '
+                     'still flowing'))
     rep.check(bad is None, 'C20.R3', key(ef, 'eof table'),
               'EOF always recorded; forwarded iff a peer exists; transport '
               'kept open iff the peer has not seen EOF',
@@ -329,41 +390,66 @@ def r4(k: Kit) -> None:
     idx = k.idx
     rep.rule('C20.R4', 'SSHLocalForwarder._forward: after the channel '
              'coroutine returned, buffered input is written before a '
-             'buffered EOF; an open failure closes the accepted connection')
+             'buffered EOF; an open failure closes the accepted connection; '
+             'if the accepted connection went away while the channel was '
+             'being opened, the new channel is closed instead')
     fw = k.func('forward.SSHLocalForwarder._forward')
     bad = None
+    from ..absint import evaluate_total
     for fail in (False, True):
         for buf in (b'', b'early'):
             for eof in (False, True):
-                def on_call(name, args, env, fail=fail):
-                    if name == 'self._coro':
-                        return _Raise('ChannelOpenError') if fail \
-                            else Obj('x')
-                    return Obj('x')
-                try:
-                    o = evaluate(idx, fw.module, fw.node.body,
-                                 {'self._peer': Obj('PEER'),
-                                  'self._inpbuf': buf,
-                                  'self._eof_received': eof,
-                                  'self._coro': Obj('CORO')},
-                                 {'args': ()}, on_call)
-                except NotEvaluable as exc:
-                    rep.error('C20.R4', 'not-evaluable', str(exc))
-                    return
-                seq = [nm for nm, a in o.calls
-                       if nm in ('self._peer.write', 'self._peer.write_eof',
-                                 'self.connection_lost')]
-                if fail:
-                    want = ['self.connection_lost']
-                else:
-                    want = (['self._peer.write'] if buf else []) + \
-                        (['self._peer.write_eof'] if eof else [])
-                if seq != want:
-                    bad = bad or f'fail={fail} buffered={buf!r} eof={eof}: ' \
-                        f'{seq}, expected {want}'
-                if not fail and buf and \
-                        ('self._inpbuf', b'') not in o.stores:
-                    bad = bad or 'early buffer not cleared after replay'
+                for gone in (False, True):
+                    def on_call(name, args, env, fail=fail):
+                        if name == 'self._coro':
+                            return _Raise('ChannelOpenError') if fail \
+                                else Obj('x')
+                        return Obj('x')
+                    try:
+                        outs = evaluate_total(
+                            idx, fw.module, fw.node.body,
+                            {'self._peer': Obj('PEER'),
+                             'self._inpbuf': buf,
+                             'self._eof_received': eof,
+                             'self._coro': Obj('CORO'),
+                             'self._transport':
+                                 None if gone else Obj('TRANSPORT')},
+                            {'args': ()}, on_call)
+                    except NotEvaluable as exc:
+                        rep.error('C20.R4', 'not-evaluable', str(exc))
+                        return
+                    for extra, o in outs:
+                        seq = [nm for nm, a in o.calls
+                               if nm in ('self._peer.write',
+                                         'self._peer.write_eof',
+                                         'self.connection_lost',
+                                         'self.close', 'self._peer.close')]
+                        if fail:
+                            want = [['self.connection_lost']]
+                        elif gone:
+                            # the accepted socket went away while the
+                            # channel was being opened: the new channel
+                            # must be closed, nothing replayed
+                            want = [['self.close'], ['self._peer.close']]
+                        else:
+                            want = [(['self._peer.write'] if buf else []) +
+                                    (['self._peer.write_eof'] if eof else [])]
+                        if seq not in want:
+                            bad = bad or (
+                                f'open {"fails" if fail else "succeeds"}, '
+                                f'accepted socket '
+                                f'{"already closed" if gone else "open"}, '
+                                f'buffered={buf!r} eof={eof}: {seq}, '
+                                f'expected {want[0]}' +
+                                (': the channel opened for a socket that is '
+                                 'gone is attached to a forwarder without '
+                                 'transport and nothing ever closes it - the '
+                                 'tunnel and the destination connection '
+                                 'stay open until the SSH connection ends'
+                                 if gone and not fail else ''))
+                        if not fail and not gone and buf and \
+                                ('self._inpbuf', b'') not in o.stores:
+                            bad = bad or 'early buffer not cleared after replay'
     rep.check(bad is None, 'C20.R4', key(fw, 'early data table'),
               'early data, then early EOF, replayed once; failure closes',
               f'early-data handling is wrong: {bad}', fw.loc(fw.node))
